@@ -117,6 +117,7 @@ type RPCSpec struct {
 	Task       int  // client task issuing this RPC
 	Misbehaved bool // scripts were truncated / do not follow the conversation to its end
 	Duplex     bool
+	TwoRecvC, TwoRecvH bool // two concurrent receivers on the client / handler side
 	Clean      bool // eligible for the completeness clause
 }
 
@@ -241,7 +242,7 @@ func e1ModeFor(prop string) E1Mode {
 	case "C07":
 		m.MaxRPCs, m.MaxTasks, m.Duplex, m.CancelP, m.Misbehave, m.SmallNet, m.CloserP = 4, 3, 0.6, 0.4, 0.4, 0.6, 0.5
 	case "C10":
-		m.MaxRPCs, m.ErrP, m.UnknownP = 4, 0.7, 0.1
+		m.MaxRPCs, m.ErrP, m.UnknownP, m.Misbehave, m.SmallNet, m.ServeCancelP, m.Duplex = 4, 0.7, 0.1, 0.25, 0.3, 0.1, 0.2
 	case "C11":
 		m.MaxRPCs, m.MetaP, m.CancelP, m.Misbehave, m.ForceSoftC = 6, 0.7, 0.35, 0.3, -1
 	case "C12":
@@ -393,7 +394,11 @@ func (g *e1gen) errSpec(idx int) ErrSpec {
 	case 2:
 		e.Msg = fmt.Sprintf("bin\x00\r\n\xff\xfe rpc %d", idx)
 	case 3:
-		b := make([]byte, 3000+g.pick(3)*30000)
+		n := 3000 + g.pick(3)*30000
+		if g.cfg.NetCap > 0 && g.cfg.NetCap < 100 {
+			n = 300 // every byte costs steps on a tiny network
+		}
+		b := make([]byte, n)
 		for j := range b {
 			b[j] = 'a' + byte((j+idx)%26)
 		}
@@ -401,7 +406,10 @@ func (g *e1gen) errSpec(idx int) ErrSpec {
 	}
 	e.Code = []uint64{0, 1, 12, 1 << 63, ^uint64(0), 77}[g.pick(6)]
 	e.Depth = g.pick(6)
-	e.Style = g.pick(3)
+	e.Style = g.pick(4)
+	if e.Style == 3 {
+		e.Msg = fmt.Sprintf("backend of rpc %d lost: EOF", idx)
+	}
 	return e
 }
 
@@ -472,11 +480,21 @@ func (g *e1gen) duplex(r *RPCSpec) {
 	hs := 1 + g.weighted(3, 2, 1)
 	_, r.CAux = mk(cs, r.Shape != ShSStream)
 	_, r.HAux = mk(hs, r.Shape != ShCStream)
-	// receivers run as aux tasks too; main joins senders, half-closes, joins all
+	// receivers run as aux tasks too (sometimes two per side); main joins
+	// senders, half-closes, joins all
+	nsC, nsH := len(r.CAux), len(r.HAux)
 	r.CAux = append(r.CAux, []Op{{Kind: OpRecvAll}})
 	r.HAux = append(r.HAux, []Op{{Kind: OpRecvAll}})
-	r.COps = []Op{{Kind: OpJoin, Size: len(r.CAux) - 1}, {Kind: OpCloseSend}, {Kind: OpJoin, Size: len(r.CAux)}}
-	r.HOps = []Op{{Kind: OpJoin, Size: len(r.HAux) - 1}, {Kind: OpJoin, Size: len(r.HAux)}}
+	if g.chance(0.25) {
+		r.CAux = append(r.CAux, []Op{{Kind: OpRecvAll}})
+		r.TwoRecvC = true
+	}
+	if g.chance(0.25) {
+		r.HAux = append(r.HAux, []Op{{Kind: OpRecvAll}})
+		r.TwoRecvH = true
+	}
+	r.COps = []Op{{Kind: OpJoin, Size: nsC}, {Kind: OpCloseSend}, {Kind: OpJoin, Size: len(r.CAux)}}
+	r.HOps = []Op{{Kind: OpJoin, Size: nsH}, {Kind: OpJoin, Size: len(r.HAux)}}
 	r.Clean = true
 	// a concurrent closer on either side (joined last, so it never delays the script)
 	if g.chance(g.mode.CloserP) {
